@@ -282,7 +282,7 @@ func (e *Effects) Summaries(entries []*ssa.Function) []*ssa.Function {
 			return
 		}
 		seen[f] = true
-		if f.Blocks == nil || f.Pkg == nil || !IsRepoPkg(f.Pkg.Pkg) {
+		if f.Blocks == nil || !isRepoFunc(f) {
 			return
 		}
 		for _, b := range f.Blocks {
@@ -758,7 +758,7 @@ func (e *Effects) applyCall(f *ssa.Function, s *FnSummary, site ssa.CallInstruct
 	}
 	for _, callee := range callees {
 		name := e.calleeName(callee)
-		if callee.Pkg != nil && !IsRepoPkg(callee.Pkg.Pkg) || callee.Pkg == nil {
+		if !isRepoFunc(callee) {
 			s.Calls[name] = pos
 			if callee.Pkg != nil {
 				switch callee.Pkg.Pkg.Path() {
@@ -822,6 +822,21 @@ func (e *Effects) applyCall(f *ssa.Function, s *FnSummary, site ssa.CallInstruct
 					return out
 				case "fresh":
 					return nil
+				case "freevar":
+					// what a closure (or bound-method wrapper) reaches through its captured values is
+					// what the function value called here was built from
+					var out []Root
+					if !com.IsInvoke() {
+						for q := range e.rootsOf(com.Value, 0) {
+							if q.Kind != "fresh" {
+								out = append(out, q)
+							}
+						}
+					}
+					if len(out) == 0 {
+						return []Root{r}
+					}
+					return out
 				}
 				return []Root{r}
 			}
@@ -941,4 +956,17 @@ func (e *Effects) AllRepoFunctions() []*ssa.Function {
 	}
 	sort.Slice(u, func(i, j int) bool { return u[i].String() < u[j].String() })
 	return u
+}
+
+
+// isRepoFunc: a function of this repository, or a synthetic wrapper (bound method, thunk,
+// promoted-method wrapper) of one — the wrapper's body is analysed like any other.
+func isRepoFunc(f *ssa.Function) bool {
+	if f.Pkg != nil {
+		return IsRepoPkg(f.Pkg.Pkg)
+	}
+	if f.Synthetic != "" && f.Blocks != nil && f.Object() != nil && f.Object().Pkg() != nil {
+		return IsRepoPkg(f.Object().Pkg())
+	}
+	return false
 }
